@@ -548,6 +548,35 @@ pub type Deep {
         ("gfx2", "pub type Other {\n    pub a: u8,\n}\n".to_string()),
     ]));
     // a packed type whose fields are all naturally aligned still has alignment 1
+    // a module that declares nothing but extern values: it still gets a file with its accessors (C15, C14)
+    c.push(("externs-only-module", vec![
+        ("a", "pub type A { pub a: u32 }\n".into()),
+        ("globals", "use a::A;\n#[address(0x1000)]\npub extern counter: u32;\n#[address(0x100002000)]\npub extern first: *mut A;\n".into()),
+    ]));
+    // generated padding longer than 32 bytes (not a multiple of 32, above 1024) in defaultable and other types: the padding
+    // field has exactly the resolved length, whatever derives are requested (C01, C02)
+    c.push(("long-padding", vec![("m", r##"
+#[defaultable, align(16), size(0x40)]
+pub type Long { pub a: u64, #[address(0x30)] pub b: u64 }
+#[defaultable, align(4), size(0x500)]
+pub type VeryLong { pub a: u32, #[address(0x42c)] pub b: u32 }
+#[copyable, align(2), size(100)]
+pub type Tail { pub a: u8, _: unknown<33>, pub b: u16 }
+#[align(8)]
+pub type Plain { pub a: u64, #[address(0x41)] pub b: u8, #[address(0x90)] pub c: u64 }
+"##.into())]));
+    // a type that shares the vftable pointer of a first base which is NOT at offset 0 (displaced by a field and an address), also
+    // packed, also through an intermediate base that inherits the pointer behind another field (C04, C06)
+    c.push(("displaced-first-base", vec![("m", r##"
+pub type Root { vftable { pub fn f(&self) -> u32; pub fn g(&mut self, a: u32); }, pub r: u32, _: unknown<4> }
+pub type Tagged { pub tag: u32, #[address(8)] #[base] pub base: Root }
+pub type Addressed { #[address(0x10)] #[base] pub base: Root }
+pub type Mid { pub tag: u32, #[address(8)] #[base] pub root: Root }
+#[packed]
+pub type Leaf { #[base] pub mid: Mid, pub x: u8 }
+pub type PlainLeaf { #[base] pub mid: Mid, pub x: u32, _: unknown<4> }
+pub type Own { vftable { pub fn f(&self) -> u32; pub fn g(&mut self, a: u32); pub fn h(&self); }, #[base] pub base: Root }
+"##.into())]));
     c.push(("packed-aligned", vec![("m", "#[packed]\npub type PackedAligned {\n    pub a: u32,\n    pub b: u32,\n}\n#[packed]\npub type PackedPointer {\n    pub p: *const u8,\n    pub xs: [u16; 4],\n}\npub type Holder {\n    pub tag: u8,\n    pub inner: PackedAligned,\n    _: unknown<7>,\n    pub q: *const u8,\n    pub r: *const u8,\n}\n".to_string())]));
     // a user type named like a built-in, imported by name (the import outranks the built-in)
     c.push(("import-named-like-builtin", vec![
